@@ -28,6 +28,32 @@ pub fn analyze(bytes: &[u8], permissive: bool) -> Out {
     }
 }
 
+/// (slot index, offset, known bit width) of every entry, or None when the analysis failed
+pub fn analyze_layout(bytes: &[u8]) -> Option<Vec<(U256, usize, Option<usize>)>> {
+    use storage_layout_extractor::tc::abi::AbiType;
+    fn width(t: &AbiType) -> Option<usize> {
+        match t {
+            AbiType::Number { size } | AbiType::UInt { size } | AbiType::Int { size } => *size,
+            AbiType::Bytes { length } => length.map(|l| l * 8),
+            AbiType::Bits { length } => *length,
+            AbiType::Address => Some(160),
+            AbiType::Selector => Some(32),
+            AbiType::Function => Some(192),
+            AbiType::Bool => Some(8),
+            _ => None,
+        }
+    }
+    let b = bytes.to_vec();
+    let r = catch_unwind(move || {
+        let contract = Contract::new(b, Chain::Ethereum { version: EthereumVersion::Shanghai });
+        sle::new(contract, sle::vm::Config::default().with_permissive_errors(true), sle::tc::Config::default(), LazyWatchdog.in_rc()).analyze()
+    });
+    match r {
+        Ok(Ok(l)) => Some(l.slots().iter().map(|s| (s.index.0, s.offset, width(&s.typ))).collect()),
+        _ => None,
+    }
+}
+
 fn slots(o: &Out) -> Option<Vec<U256>> { if let Out::Ok(v) = o { Some(v.iter().map(|x| x.0).collect()) } else { None } }
 
 /// `prefix` then  JUMPDEST@? PUSH1 1 PUSH1 <slot> SSTORE STOP ; reports whether `slot` shows up
@@ -43,6 +69,27 @@ fn c08_control_flow_programs() {
     let mut p = vec![0x64, 0x01, 0x00, 0x00, 0x00, 0x08, 0x56, 0xfe];
     p.extend(store(7));
     progs.push(("truncated 2^32+8 target", p, Some(7), None));
+    // jump to 2^64+8 / 2^128+8 / 2^255+8 whose low bits name a valid JUMPDEST at offset 0x0d / 0x14 / 0x24
+    for (n, name) in [(9usize, "2^64"), (17, "2^128"), (32, "2^255")] {
+        // PUSHn (1 << 8*(n-1)) + dest ; JUMP ; INVALID ; JUMPDEST ...
+        let mut p = vec![0x5f + n as u8];
+        let mut imm = vec![0u8; n];
+        imm[0] = if n == 32 { 0x80 } else { 0x01 };
+        let dest = (n + 3) as u8;
+        imm[n - 1] = dest;
+        p.extend(&imm);
+        p.extend([0x56, 0xfe]);
+        p.extend(store(7));
+        progs.push((Box::leak(format!("truncated {name}+{dest} target").into_boxed_str()), p, Some(7), None));
+        // the same target through JUMPI
+        let mut p = vec![0x60, 0x01, 0x5f + n as u8];
+        let dest = (n + 5) as u8;
+        imm[n - 1] = dest;
+        p.extend(&imm);
+        p.extend([0x57, 0x00]);
+        p.extend(store(7));
+        progs.push((Box::leak(format!("truncated {name}+{dest} target via JUMPI").into_boxed_str()), p, Some(7), None));
+    }
     // jump into push data: PUSH1 4 JUMP PUSH1 0x5b ; then code
     let mut p = vec![0x60, 0x04, 0x56, 0x60, 0x5b, 0x60, 0x01, 0x60, 0x09, 0x55, 0x00];
     progs.push(("target inside push data", p.clone(), Some(9), None));
